@@ -236,8 +236,39 @@ def body(ctx):
                         ctx.violation('C17.SignerSound', dict(kind='a 20-byte token signed after the signer was asked to sign something else', signer=name, key=ki,
                                                               first=first.hex(), token=tk_.hex(), signature_length=len(got_)),
                                       finding='F3' if (f3 and name == 'PycryptodomeAuthSigner') else None)
+            # a signer object that came into being without its constructor, in an interpreter that has built no other signer: pickled
+            # here, loaded and used in a fresh child interpreter (a worker process).  Signers that cannot be pickled are left out.
+            import pickle
+            import subprocess
+            for (name, make) in signers(path):
+                try:
+                    blob = pickle.dumps(make())
+                except Exception:  # noqa
+                    if name not in ctx.extra.setdefault('signers_not_picklable', []):
+                        ctx.extra['signers_not_picklable'].append(name)
+                    continue
+                tk_ = rng.getrandbits(160).to_bytes(20, 'big')
+                code = ('import sys, pickle; sys.path.insert(0, %r); s = pickle.loads(bytes.fromhex(%r)); sys.stdout.write(bytes(s.Sign(bytes.fromhex(%r))).hex())' % (ctx.repo, blob.hex(), tk_.hex()))
+                p_ = subprocess.run(['/venv/bin/python', '-c', code], stdout=subprocess.PIPE, stderr=subprocess.PIPE, timeout=120)
+                ctx.count(evaluations=1)
+                try:
+                    got_ = bytes.fromhex(p_.stdout.decode().strip())
+                except ValueError:
+                    got_ = b''
+                if rsaproj.recover_token(got_, n, e) != tk_:
+                    ctx.violation('C17.SignerSound', dict(kind='a signer pickled into a fresh interpreter', signer=name, key=ki, token=tk_.hex(), signature_length=len(got_),
+                                                          stderr=p_.stderr.decode('utf8', 'replace')[-300:]),
+                                  finding='F3' if (f3 and name == 'PycryptodomeAuthSigner') else None)
             ctx.extra.setdefault('boundary_tokens_found', 0)
             ctx.extra['boundary_tokens_found'] += 1 if btok is not None else 0
+            old_signers = {}
+            for (name, make) in signers(path):
+                try:
+                    o_ = make()
+                    o_.Sign(bytes(20))
+                    old_signers[name] = o_
+                except Exception:  # noqa
+                    pass
             # key rotation: keygen again at the same path - the public key file must belong to the new private key
             keygen.keygen(path)
             n2, e2 = rsaproj.public_numbers_of_pem(path)
@@ -245,6 +276,29 @@ def body(ctx):
             ctx.count(evaluations=1)
             if not (d2['ok'] and d2['n'] == n2 and d2['e'] == e2):
                 ctx.violation('C17.PubFileSound', dict(kind='keygen twice at the same path', key=ki, why=d2.get('why') or 'the .pub file does not belong to the regenerated private key'))
+            # key rotation on a live object: a signer that has already signed gets the attributes of a signer for the new key (what code
+            # does that swaps `rsa_key` / `public_key` or `priv_key` / `pub_key` in place): it then signs with the new key and offers it
+            for (name, make) in signers(path):
+                try:
+                    import copy
+                    old_ = old_signers.get(name)
+                    if old_ is None:
+                        continue
+                    fresh = make()
+                    for k_, v_ in list(vars(fresh).items()):
+                        if not k_.startswith('_'):               # the documented attributes only
+                            setattr(old_, k_, v_)
+                    tk_ = rng.getrandbits(160).to_bytes(20, 'big')
+                    got_ = bytes(old_.Sign(tk_))
+                    pub_ = old_.GetPublicKey()
+                except Exception as x:  # noqa
+                    got_, pub_ = b'', repr(x)
+                ctx.count(evaluations=1)
+                d3 = rsaproj.decode_blob(pub_ if isinstance(pub_, (bytes, bytearray)) else str(pub_).encode('utf8', 'replace'))
+                if rsaproj.recover_token(got_, n2, e2) != tk_ or not (d3['ok'] and d3['n'] == n2):
+                    ctx.violation('C17.SignerSound', dict(kind='a signer whose key attributes were replaced after it had signed', signer=name, key=ki, signs_with_new_key=rsaproj.recover_token(got_, n2, e2) == tk_,
+                                                          offers_new_key=bool(d3['ok'] and d3.get('n') == n2)),
+                                  finding='F3' if (f3 and name == 'PycryptodomeAuthSigner') else None)
             if ki == 0:
                 shared_signer_threads(ctx, path, n2, e2, rng)
             # interchangeable: PKCS#1 v1.5 is deterministic, so the three classes must produce the same bytes
